@@ -257,7 +257,8 @@ def _footer(pv, dtype_list=None, truncated=False, shown=MAX_HEAD_COLS) -> str:
 	"""Generate footer line based on shape and dtypes."""
 	shape = pv.shape
 	if not shape:
-		return "# empty"
+		# an empty vector reports no dimensions; it is still a 0 element vector
+		shape = (0,)
 	
 	if len(shape) == 1:
 		if pv._dtype:
@@ -404,7 +405,7 @@ def _repr_table(tbl) -> str:
 def _printr(pv) -> str:
 	"""Entry point used by Vector.__repr__ and Table.__repr__."""
 	nd = len(pv.shape)
-	if nd == 1:
+	if nd <= 1:
 		return _repr_vector(pv)
 	if nd == 2:
 		return _repr_table(pv)
